@@ -75,14 +75,17 @@ PROPS: dict[str, dict[str, Any]] = {
     },
     "C12": {
         "level": "exploration",
-        "sidecars": [],
+        "sidecars": ["contracts/c12.py"],
+        "native_n": {"quick": 300, "thorough": 10000},
         "bounded": [{"script": "bounded/store_harness.py", "args": ["--mode", "c12"]}],
         "rule": "bounded stand-in: stores of 2-3 traces (chains and bushy trees of 1..7 (thorough 9) spans, trace sizes below / equal / above the batch "
                 "size and off batch boundaries) under 1-2 workflow names, natural and shuffled ingestion order x batch sizes {1,2,3,4,5,1000} x filters "
                 "{none, one name, per-name subsets}; the nested generators of the real stream_data are consumed in the order the real consumers do; "
                 "postcondition: names once, traces once, spans == the nodes rows of the trace, child links == association rows. non-trivial = more than "
                 "one trace",
-        "assumptions": ["bounded, not proved: itertools.groupby over a server-side cursor (escaping lazy generators) is outside the verifier's subset"],
+        "assumptions": ["bounded, not proved: itertools.groupby over a server-side cursor (escaping lazy generators) is outside the verifier's subset; the "
+                        "proved part (contracts/c12.py) covers only node_to_otel_event and job_ids_to_eventid_to_otelevent_map, with node.children (the ORM "
+                        "relationship over the association table) trusted"],
     },
     "C14": {
         "level": "exploration",
